@@ -62,12 +62,21 @@ def _span_post(ctx, tag, p, U, n, u, r):
     ctx.check(tag + '.interval_nonempty', ctx.lt(U[r], U[r + 1]))
 
 
-def _pin_to_span(ctx, p, U, inner, n, j):
-    """symbolic parameter in the j-th non-empty interval of the domain: [c_j, c_j+1), closed at the domain end"""
+def _pin_to_span(ctx, p, U, inner, n, j, where):
+    """parameter in the j-th non-empty interval [c_j, c_j+1] of the domain, the case pinned by `where`:
+       'knot'  u is the knot c_j itself (the left end of the interval: domain start or an interior knot)
+       'open'  symbolic u with c_j < u < c_j+1
+       'end'   u is the domain end U[n] (j must be the last interval)
+    Pinning instead of forking keeps every path free of an equality u == knot that would have to be substituted
+    into polynomial identities."""
     chain = [U[p]] + list(inner) + [U[n]]
+    if where == 'knot':
+        return chain[j]
+    if where == 'end':
+        assert j == len(chain) - 2
+        return chain[-1]
     u = ctx.num('u')
-    ctx.assume(ctx.le(chain[j], u))
-    ctx.assume(ctx.le(u, chain[j + 1]) if j == len(chain) - 2 else ctx.lt(u, chain[j + 1]))
+    ctx.assume(ctx.lt(chain[j], u), ctx.lt(u, chain[j + 1]))
     return u
 
 
@@ -155,7 +164,8 @@ def _basis_shapes(tier):
             if p >= 5 and len(mult) > 2:
                 continue
             for j in range(len(mult) + 1):
-                out.append(dict(p=p, mult=mult, clamped=clamped, j=j))
+                for where in ('knot', 'open') + (('end',) if j == len(mult) else ()):
+                    out.append(dict(p=p, mult=mult, clamped=clamped, j=j, where=where))
     return out
 
 
@@ -167,17 +177,19 @@ def _nonneg_decided(p, mult, clamped):
 @scenario('C03', fns=['helpers.basis_function', 'helpers.basis_function_one', 'helpers.basis_function_all',
                       'helpers.basis_functions', 'helpers.basis_function_ders'],
           quick=lambda: _basis_shapes('quick'), thorough=lambda: _basis_shapes('thorough'))
-def basis_values(ctx, p, mult, clamped, j):
+def basis_values(ctx, p, mult, clamped, j, where):
     """requires valid_kv (clamped: normalised [0,1] with symbolic interior knots; unclamped: every knot symbolic),
-                u in the j-th non-empty interval of the domain (half-open, closed at the domain end), span = span of u
+                u in the j-th non-empty interval of the domain: on its left knot / strictly inside / (last interval)
+                on the domain end;  span = span of u
        ensures  N = basis_function(p, U, span, u):  N[r] == Cox-de Boor B(span-p+r, p)(u);  N[r] >= 0;  sum N == 1;
                 basis_function_one(p, U, i, u) == N[i-span+p] for span-p <= i <= span and == 0 for every other i < n;
                 basis_function_all(...)[j][i] == B(span-i+j, i)(u) for j <= i <= p;  basis_function_ders(..., 0)[0] == N;
                 basis_functions(p, U, [span, span0], [u, start]) == [N, basis_function at the domain start]"""
     U, inner, n = shapes.make_kv(ctx, p, mult, clamped=clamped, normalized=clamped)
-    u = _pin_to_span(ctx, p, U, inner, n, j)
+    u = _pin_to_span(ctx, p, U, inner, n, j, where)
     hp = ctx.geomdl('helpers')
     span = spec.span_spec(p, U, n, u)
+    ctx.check_true('span_index', span == p + sum(mult[:j]))
     N = hp.basis_function(p, list(U), span, u)
     ctx.check_true('basis_function.len', len(N) == p + 1)
     row = spec.basis_row(p, U, span, u)
@@ -189,7 +201,7 @@ def basis_values(ctx, p, mult, clamped, j):
     ctx.check_eq('sum_to_one', tot, 1)
     if _nonneg_decided(p, mult, clamped):
         for r in range(p + 1):
-            ctx.check('nonneg[%d]' % r, _le(ctx, 0, N[r]))
+            ctx.check('nonneg[%d]' % r, _le(ctx, 0, N[r]), nonlinear=True)
     # single-function variant, every control-point index
     for i in range(n):
         one = hp.basis_function_one(p, list(U), i, u)
@@ -217,23 +229,8 @@ def basis_values(ctx, p, mult, clamped, j):
     ctx.check_eq_vec('basis_functions[1]', L[1], hp.basis_function(p, list(U), s0, lo))
 
 
-def _ders_shapes(tier):
-    return _basis_shapes(tier)
-
-
-@scenario('C03', fns=['helpers.basis_function_ders', 'helpers.basis_function_ders_one', 'helpers.basis_functions_ders'],
-          quick=lambda: _ders_shapes('quick'), thorough=lambda: _ders_shapes('thorough'))
-def basis_ders(ctx, p, mult, clamped, j):
-    """requires as basis_values
-       ensures  for order = 0..p:  D = basis_function_ders(p, U, span, u, order) has min(p, order)+1 rows,
-                D[0] == basis_function, every row k >= 1 sums to 0, D[k][r] is the k-th formal u-derivative of
-                basis_function[r] (sym mode);  basis_function_ders_one(p, U, i, u, order)[k] == D[k][i-span+p] for i in
-                the support and == 0 for every other i < n;  basis_functions_ders is the list lift"""
-    U, inner, n = shapes.make_kv(ctx, p, mult, clamped=clamped, normalized=clamped)
-    u = _pin_to_span(ctx, p, U, inner, n, j)
-    hp = ctx.geomdl('helpers')
-    span = spec.span_spec(p, U, n, u)
-    N = hp.basis_function(p, list(U), span, u)
+def _ders_rows(ctx, hp, p, U, span, u, N):
+    """contract of basis_function_ders for every order 0..p; returns the order-p table"""
     Dp = None
     for order in range(p, -1, -1):
         D = hp.basis_function_ders(p, list(U), span, u, order)
@@ -248,9 +245,30 @@ def basis_ders(ctx, p, mult, clamped, j):
             Dp = D
         else:
             ctx.check_eq_grid('ders(order=%d)==prefix_of_ders(order=p)' % order, D, Dp[:order + 1])
+    return Dp
+
+
+@scenario('C03', fns=['helpers.basis_function_ders', 'helpers.basis_function_ders_one', 'helpers.basis_functions_ders'],
+          quick=lambda: [d for d in _basis_shapes('quick') if d['where'] != 'end'],
+          thorough=lambda: [d for d in _basis_shapes('thorough') if d['where'] != 'end'])
+def basis_ders(ctx, p, mult, clamped, j, where):
+    """requires as basis_values, but u < U[n]: on the left knot of the j-th interval or strictly inside it (span search
+                and the half-open single-function variant then use the same side; the domain end is basis_ders_at_end)
+       ensures  for order = 0..p:  D = basis_function_ders(p, U, span, u, order) has min(p, order)+1 rows,
+                D[0] == basis_function, every row k >= 1 sums to 0, D[k][r] is the k-th formal u-derivative of
+                basis_function[r] (sym mode, u strictly inside);  basis_function_ders_one(p, U, i, u, order)[k] == D[k][i-span+p] for i in
+                the support and == 0 for every other i < n (order = p for every i, every order 0..p for the middle
+                function of the support);  basis_functions_ders is the list lift"""
+    U, inner, n = shapes.make_kv(ctx, p, mult, clamped=clamped, normalized=clamped)
+    u = _pin_to_span(ctx, p, U, inner, n, j, where)
+    hp = ctx.geomdl('helpers')
+    span = spec.span_spec(p, U, n, u)
+    N = hp.basis_function(p, list(U), span, u)
+    Dp = _ders_rows(ctx, hp, p, U, span, u, N)
     for i in range(n):
         inside = span - p <= i <= span
-        for order in (range(0, p + 1) if inside else (p,)):
+        # every order for the middle function of the support, the full order p for every other index
+        for order in (range(0, p + 1) if i == span - p // 2 else (p,)):
             one = hp.basis_function_ders_one(p, list(U), i, u, order)
             ctx.check_true('ders_one(order=%d).len' % order, len(one) == order + 1)
             if inside:
@@ -258,18 +276,59 @@ def basis_ders(ctx, p, mult, clamped, j):
                                  [Dp[k][i - span + p] for k in range(order + 1)])
             else:
                 ctx.check_eq_vec('ders_one[outside_support]', one, [0] * (order + 1))
-    if ctx.mode == 'sym':
-        for r in range(p + 1):
-            f = N[r]
-            for k in range(1, p + 1):
-                f = ctx.diff(f, 'u')
-                ctx.check_eq('ders[%d][%d]==d^%d/du^%d basis_function' % (k, r, k, k), Dp[k][r], f)
     lo = U[p]
     s0 = spec.span_spec(p, U, n, lo)
     L = hp.basis_functions_ders(p, list(U), [span, s0], [u, lo], p)
     ctx.check_true('basis_functions_ders.len', len(L) == 2)
     ctx.check_eq_grid('basis_functions_ders[0]', L[0], Dp)
     ctx.check_eq_grid('basis_functions_ders[1]', L[1], hp.basis_function_ders(p, list(U), s0, lo, p))
+    if ctx.mode == 'sym' and where == 'open':
+        for r in range(p + 1):
+            f = N[r]
+            for k in range(1, p + 1):
+                f = ctx.diff(f, 'u')
+                ctx.check_eq('ders[%d][%d]==d^%d/du^%d basis_function' % (k, r, k, k), Dp[k][r], f)
+
+
+def _end_shapes(tier):
+    seen, out = [], []
+    for d in _basis_shapes(tier):
+        key = (d['p'], d['mult'], d['clamped'])
+        if key not in seen:
+            seen.append(key)
+            out.append(dict(p=d['p'], mult=d['mult'], clamped=d['clamped']))
+    return out
+
+
+@scenario('C03', fns=['helpers.basis_function_ders', 'helpers.basis_function_ders_one'],
+          quick=lambda: _end_shapes('quick'), thorough=lambda: _end_shapes('thorough'))
+def basis_ders_at_end(ctx, p, mult, clamped):
+    """the parameter at the domain end, u == U[n]; span = n-1 (the last non-empty interval), so basis_function and
+       basis_function_ders give the left-hand values while basis_function_ders_one is written half-open (right-hand).
+       ensures  the basis_function_ders contract of basis_ders (rows, [0] == basis_function, rows sum to 0);
+                basis_function_ders_one(p, U, i, u, order)[0] == basis_function[i-span+p] (the value is the
+                "single-function variant" of the statement, "at both ends"), and [k] == D[k][i-span+p] for the orders
+                1 <= k <= p - (multiplicity of the end knot), where left- and right-hand derivatives coincide
+                (simple end knot of an unclamped vector: k <= p-1; clamped: the value only);  0 outside the support"""
+    U, inner, n = shapes.make_kv(ctx, p, mult, clamped=clamped, normalized=clamped)
+    u = U[n]
+    hp = ctx.geomdl('helpers')
+    span = spec.span_spec(p, U, n, u)
+    ctx.check_true('span_at_end', span == n - 1)
+    N = hp.basis_function(p, list(U), span, u)
+    Dp = _ders_rows(ctx, hp, p, U, span, u, N)
+    smooth = p - sum(1 for k in U if k is u)
+    for i in range(n):
+        inside = span - p <= i <= span
+        for order in (range(0, p + 1) if i == span - p // 2 else (p,)):
+            one = hp.basis_function_ders_one(p, list(U), i, u, order)
+            ctx.check_true('ders_one@end(order=%d).len' % order, len(one) == order + 1)
+            if inside:
+                ctx.check_eq('ders_one@end(order=%d)[i=span-p+%d].value' % (order, i - span + p), one[0], N[i - span + p])
+                for k in range(1, min(order, smooth) + 1):
+                    ctx.check_eq('ders_one@end(order=%d)[i=span-p+%d][%d]' % (order, i - span + p, k), one[k], Dp[k][i - span + p])
+            else:
+                ctx.check_eq_vec('ders_one@end[outside_support]', one, [0] * (order + 1))
 
 
 def _above_shapes(tier):
